@@ -2,6 +2,7 @@ import AdfObdd.Persist
 import AdfObdd.Grounded
 import AdfObdd.PreGround2
 import AdfObdd.Stable
+import AdfObdd.MemoTransparent
 /-! # C14 — persistence round trips preserve handles and answers
 
 `Persist.PBdd` / `PAdf` are `Bdd` / `Adf` with the serde-skipped bookkeeping explicit.  Two round
@@ -113,6 +114,31 @@ theorem future_ops_same_functions_partial (ops : List Op) (s s' : Store) (hist :
   have hk' : k < (runOps ops s' hist).2.length := by rw [b.len, ← a.len]; exact hk
   rw [(a.ok k hk).2 σ, (b.ok k hk').2 σ]
 
+/-- closes the gap named in `future_ops_same_functions_partial`: the two runs also issue the same
+handle NUMBERS and build the same node table (memo transparency, `runOps_memo_transparent`) -/
+theorem future_ops_same_handles (ops : List Op) (s s' : Store) (hist : List Nat) (fs : List BoolFn)
+    (w : WF s) (w' : WF s') (hn : s'.nodes = s.nodes) (h : HistOK s hist fs) (hv : opsValid ops hist.length) :
+    (runOps ops s' hist).2 = (runOps ops s hist).2 ∧
+    (runOps ops s' hist).1.nodes = (runOps ops s hist).1.nodes :=
+  runOps_memo_transparent ops s s' hist w w' hn (fun k hk => (h.ok k hk).1) hv
+
+/-- the same, instantiated: after `export → import → fix_import` (memo tables empty) and after the
+node-list rebuild `Bdd::from(nodes)`, every later operation sequence issues the handle numbers and
+builds the node table it does on the never-exported original (memo tables arbitrary) -/
+theorem future_ops_same_handles_roundtrips (ops : List Op) (b : PBdd) (hist : List Nat) (w : WF b.st)
+    (hh : ∀ k, k < hist.length → hget hist k < b.st.nodes.size) (hv : opsValid ops hist.length) :
+    let j := fixImport (importB (exportB b))
+    let r := rebuildP b.st.nodes
+    ((runOps ops j.st hist).2 = (runOps ops b.st hist).2 ∧
+     (runOps ops j.st hist).1.nodes = (runOps ops b.st hist).1.nodes) ∧
+    ((runOps ops r.st hist).2 = (runOps ops b.st hist).2 ∧
+     (runOps ops r.st hist).1.nodes = (runOps ops b.st hist).1.nodes) := by
+  intro j r
+  have ⟨hj, _, wj⟩ := Persist.import_fix b w
+  have ⟨_, hr, _, wr⟩ := rebuildP_ok b.st w
+  exact ⟨runOps_memo_transparent ops b.st j.st hist w wj.wf hj hh hv,
+         runOps_memo_transparent ops b.st r.st hist w wr.wf hr hh hv⟩
+
 /-- precondition of `fix_import`: `var_deps` must be empty (exactly once, right after an import).
 On a live object, or applied a second time, the lists are misaligned with the node table -/
 theorem fix_import_precondition (b : PBdd) :
@@ -160,4 +186,19 @@ example : DepsOK PBdd.new.st PBdd.new.deps :=
     rcases this with h | h <;> subst h <;> rfl⟩
 example : exportAction true ≠ exportAction false := by decide
 
+/-- non-vacuity of `future_ops_same_handles(_roundtrips)`: the hypotheses hold for the fresh object
+with history `[⊥, ⊤]` and a concrete operation sequence -/
+example :
+    let ops : List Op := [.var 0, .var 1, .iff 2 3, .iff 2 3, .restrict 4 1 false]
+    (runOps ops (fixImport (importB (exportB PBdd.new))).st [0, 1]).2 = (runOps ops PBdd.new.st [0, 1]).2 ∧
+    (runOps ops (rebuildP PBdd.new.st.nodes).st [0, 1]).2 = (runOps ops PBdd.new.st [0, 1]).2 :=
+  have h := future_ops_same_handles_roundtrips
+    [.var 0, .var 1, .iff 2 3, .iff 2 3, .restrict 4 1 false] PBdd.new [0, 1] WF_init
+    (fun k hk => (HistOK.init.ok k hk).1) (by simp [opsValid, Op.valid, VBOT])
+  ⟨h.1.1, h.2.1⟩
+example : ∃ fs, HistOK PBdd.new.st [0, 1] fs := ⟨_, HistOK.init⟩
+
 end C14
+
+#print axioms C14.future_ops_same_handles
+#print axioms C14.future_ops_same_handles_roundtrips
